@@ -153,6 +153,15 @@ func checkC09(c C09Case, rec *obs.Recorder) *obs.Violation {
 		if err != nil {
 			return obs.Violf("token %s: serialize: %v", desc, err)
 		}
+		if spec.RngKey%4 == 3 && len(spec.Base) == 0 {
+			// ... and those bytes were written by another implementation of the format: the same
+			// content under the same root, encoded and signed by this package's own writer
+			_, priv := bridge.RootKey(spec.RootSeed)
+			env := wireChain(priv, spec.RngKey, encodeBlocksForeign(spec.Blocks), false)
+			env.RootKeyID = spec.KeyID
+			ser = env.Encode()
+			desc += " (written by an independent encoder)"
+		}
 		if T, err = bridge.UnmarshalBase(ser, spec.Base); err != nil {
 			return obs.Violf("token %s: unmarshal: %v", desc, err)
 		}
@@ -314,7 +323,7 @@ func drawC09(t *rapid.T) C09Case {
 func TestC09(t *testing.T) {
 	rec := obs.New("C09")
 	defer rec.Flush(true)
-	rec.SetExtra("rule", "rapid: goal-directed token (authority + 0-3 later blocks; with or without a root key id, 0 included; sometimes composed over a custom base symbol table; in half of the cases received as bytes before sealing) T, S = T.Seal(), a panel of 4 generated authorizers and 2 queries, reload of S, and one of 15 sealed-envelope mutations (seal signature extended by 1-3 bytes / shortened / written twice,seal replaced by a 64-byte secret whose second half is the announced key, seal signature bits, last block / announced key / signature bits, seal from another sealed token of the same or another issuer, seal replaced by a secret, attacker seal, seal computed without the last signature, last block dropped, last two swapped, attacker block appended). Oracle: S verifies under the same root; outcome class and query results of S and of reloaded S equal those of T for every panel member; revocation ids equal; Append and Seal on S and on reloaded S return an error and no token; the mutated envelope is rejected, in agreement with the reference chain walk. Non-trivial = T has >= 1 later block and the panel has both an allowed and a refused member; distinct by (token, panel, mutation).")
+	rec.SetExtra("rule", "rapid: goal-directed token (authority + 0-3 later blocks; with or without a root key id, 0 included; sometimes composed over a custom base symbol table; in half of the cases received as bytes before sealing, half of those bytes written and signed by the independent encoder in another valid encoding: empty context omitted) T, S = T.Seal(), a panel of 4 generated authorizers and 2 queries, reload of S, and one of 15 sealed-envelope mutations (seal signature extended by 1-3 bytes / shortened / written twice,seal replaced by a 64-byte secret whose second half is the announced key, seal signature bits, last block / announced key / signature bits, seal from another sealed token of the same or another issuer, seal replaced by a secret, attacker seal, seal computed without the last signature, last block dropped, last two swapped, attacker block appended). Oracle: S verifies under the same root; outcome class and query results of S and of reloaded S equal those of T for every panel member; revocation ids equal; Append and Seal on S and on reloaded S return an error and no token; the mutated envelope is rejected, in agreement with the reference chain walk. Non-trivial = T has >= 1 later block and the panel has both an allowed and a refused member; distinct by (token, panel, mutation).")
 	rec.SetExtra("assumptions", []string{"crypto/ed25519 trusted", "equality between sealed and unsealed twins is asserted on every generated case, whatever its verdict"})
 	harness.RunWith(t, harness.Spec[C09Case]{ID: "C09", Draw: drawC09, Check: checkC09}, rec)
 }
